@@ -97,7 +97,14 @@ def blackbox(ctx):
         coin = K.COINS[i % 8]
         cb = CALLBACKS[(i // 8) % 5]
         blocks = GC.gen_chain(r, coin, r.randrange(2, 6), max_txs=3, max_io=3, scripts=nasty, auxpow_mix=False)
-        for b in blocks:
+        cb_sigs = [b"", b"\x01", b"\x03\xaa\xbb", b"\x03\xaa\xbb\xcc", b"\x04\x01\x02\x03", b"\x08" + b"\x07" * 7, b"\x08" + b"\x07" * 8, b"\x09" + b"\x07" * 9, b"\x4c", b"\x4c\x05ab",
+                   b"\x4e\xff\xff\xff\xff", b"\x00", b"\x51", b"\x02\x00", b"\x01" * 100, b"\x01" * 101, b"\x05" * 150, b"\xff" * 3]
+        for bi, b in enumerate(blocks):
+            # the coinbase's scriptSig is miner-chosen too (BIP34 heights are a convention, not a format): any bytes, any block version
+            if bi > 0 and r.random() < 0.7:
+                (h0, ix0, _s0, q0) = b.txs[0].ins[0]
+                b.txs[0].ins = [(h0, ix0, r.choice(cb_sigs) if r.random() < 0.8 else nasty(r), q0)]
+                b.version = r.choice([1, 2, 2, 3, 4] + ([0x20000000, 0x3fffe000, 0xffffffff] if coin not in K.AUXPOW else []))   # no AuxPoW section here: stay below the threshold
             for t in b.txs[1:]:
                 t.ins = [(h, ix, nasty(r), q) for (h, ix, _s, q) in t.ins]
                 if t.segwit:
